@@ -21,6 +21,8 @@ cat >> "$SCR/sim.mod" <<EOM
 replace github.com/fiorix/go-diameter => $VERIF/third_party/go-diameter
 
 replace github.com/free5gc/util => $VERIF/third_party/util
+
+replace github.com/jlaffaye/ftp => $VERIF/third_party/ftp
 EOM
 OUT="$SCR/sim.test"; RACE=""
 if [ "$MODE" = race ]; then OUT="$SCR/sim.race.test"; RACE="-race"; fi
